@@ -1,73 +1,540 @@
 package main
 
 import (
+	"context"
+	"encoding/json"
 	"fmt"
+	"go/types"
 	"os"
+	"os/exec"
 	"path/filepath"
+	"sort"
 	"strings"
+	"time"
 )
 
-// replay writes the replay file for a failed obligation and, when the
-// contract names a replay template, runs the counterexample against the real
-// code (go test -overlay; nothing is written into /repo).
+// replay writes the replay file for a failed obligation and tries to
+// reproduce the failure on the real code: a candidate input is taken from the
+// solver's model (or, when the solver gives none, from a small-scope search in
+// which quantifiers are instantiated over a finite domain), rendered as Go
+// values, and the real function is run under `go test -overlay` with the
+// contract compiled to executable checks. Only a failing run on the real code
+// counts as a reproduced counterexample.
 func (r *Report) replay(f *failure, dir string) {
 	base := filepath.Join(dir, sanitize(f.o.Name))
 	var b strings.Builder
 	fmt.Fprintf(&b, "property: %s\nobligation: %s\nkind: %s\nwhat: %s\nat: %s\nreason: %s\nsolver: %s (%s, %.2fs)\n\n",
 		r.prop, f.o.Name, f.o.Kind, f.o.Desc, f.o.Pos, f.reason, f.o.Solver, f.o.Status, f.o.Secs)
-	b.WriteString("goal (SMT-LIB):\n" + f.o.Goal + "\n\nsolver output:\n" + f.o.Model + "\n")
+	b.WriteString("goal (SMT-LIB):\n" + f.o.Goal + "\n\nsolver output:\n" + trunc(f.o.Model, 4000) + "\n")
 	f.replay = base + ".txt"
-	model := parseModel(f.o.Model)
-	if f.fr.Contract != nil && f.fr.Contract.Replay != "" && f.o.Status == "sat" {
-		ok, out, testFile := r.runTemplate(f, model, base)
-		b.WriteString("\nreplay template: " + f.fr.Contract.Replay + "\nreplay test: " + testFile + "\nreplay output:\n" + out + "\n")
-		if ok {
-			f.input = true
-			b.WriteString("\nRESULT: failing input reproduced on the real code\n")
-		} else {
-			b.WriteString("\nRESULT: no-failing-input-found (the replay did not fail on the real code)\n")
+	func() {
+		defer func() {
+			if rec := recover(); rec != nil {
+				switch x := rec.(type) {
+				case unsupported:
+					b.WriteString("\nreplay: not possible: " + x.msg + "\n")
+				case goUnsup:
+					b.WriteString("\nreplay: not possible: " + x.msg + "\n")
+				default:
+					b.WriteString(fmt.Sprintf("\nreplay: internal error: %v\n", rec))
+				}
+			}
+		}()
+		if f.fr.Fn == nil || f.fr.Contract == nil {
+			b.WriteString("\nreplay: lemma over contracts, no code to run\n")
+			return
 		}
+		if f.o.Cover {
+			b.WriteString("\nreplay: vacuity guard, no input to run\n")
+			return
+		}
+		b.WriteString("package: " + f.fr.Fn.Pkg.Pkg.Path() + "\n")
+		rp := &replayer{rep: r, f: f, base: base, log: &b}
+		rp.run()
+	}()
+	if f.input {
+		b.WriteString("\nRESULT: failing input reproduced on the real code (run: ./check " + r.prop + " --replay " + f.replay + ")\n")
 	} else {
-		b.WriteString("\nRESULT: no-failing-input-found (no replay template for this obligation or no model)\n")
+		b.WriteString("\nRESULT: no-failing-input-found\n")
 	}
 	os.WriteFile(f.replay, []byte(b.String()), 0o644)
 }
 
-// parseModel extracts (name value) pairs from a get-value answer.
-func parseModel(out string) map[string]string {
-	m := map[string]string{}
-	i := strings.Index(out, "((")
-	if i < 0 {
-		return m
+type replayer struct {
+	rep  *Report
+	f    *failure
+	base string
+	log  *strings.Builder
+}
+
+func (rp *replayer) run() {
+	fr := rp.f.fr
+	o := rp.f.o
+	eng := rp.rep.eng
+	fn := fr.Fn
+	c := fr.Contract
+	if fn.TypeParams().Len() > 0 || (fn.Origin() != nil && fn.Origin() != fn) {
+		rp.log.WriteString("\nreplay: generic function, not replayed\n")
+		return
 	}
-	s := out[i+1:]
-	// iterate over top-level "(name value)" groups
-	depth := 0
-	start := -1
-	for k := 0; k < len(s); k++ {
-		switch s[k] {
-		case '(':
-			if depth == 0 {
-				start = k
+	vc := newVC(eng, fn, c)
+	declared := map[string]bool{}
+	for _, cmd := range fr.Cmds[:o.Prefix] {
+		if strings.HasPrefix(cmd, "(declare-fun ") {
+			declared[strings.Fields(cmd)[1]] = true
+		}
+	}
+	plan := &xplan{vc: vc, declared: declared, maxElems: 5}
+	var roots []*xnode
+	for i, p := range fn.Params {
+		roots = append(roots, plan.build(p.Type(), fr.ParamConsts[i], 0))
+	}
+	sc := &specCtx{vc: vc, pkg: fn.Pkg.Pkg}
+	var wnames []string
+	for _, g := range c.Ghosts {
+		_, t := sc.quantSort(g.Type)
+		if t == nil || fr.Witness[g.Name] == "" {
+			unsup("witness %s cannot be rendered", g.Name)
+		}
+		roots = append(roots, plan.build(t, fr.Witness[g.Name], 0))
+		wnames = append(wnames, g.Name)
+	}
+	tries := 0
+	var block []string
+	for attempt := 0; attempt < 2 && !rp.f.input; attempt++ {
+		bounded := attempt == 1
+		for k := 0; k < 3 && !rp.f.input; k++ {
+			vals, ok := rp.candidate(plan, bounded, block)
+			if !ok {
+				break
 			}
-			depth++
-		case ')':
-			depth--
-			if depth == 0 && start >= 0 {
-				grp := s[start+1 : k]
-				if sp := strings.IndexAny(grp, " \n"); sp > 0 {
-					m[grp[:sp]] = strings.TrimSpace(grp[sp+1:])
+			tries++
+			for i, v := range vals {
+				*plan.slots[i] = v
+			}
+			// block this candidate's scalar values for the next round
+			var eqs []string
+			for i, t := range plan.terms {
+				if !strings.Contains(vals[i], "mk-ref") && len(vals[i]) < 40 {
+					eqs = append(eqs, "(= "+t+" "+vals[i]+")")
 				}
-				start = -1
 			}
-			if depth < 0 {
-				return m
+			if len(eqs) > 0 {
+				block = append(block, "(not (and "+strings.Join(eqs, " ")+"))")
+			}
+			rp.tryCandidate(roots, wnames, tries)
+		}
+	}
+	if tries == 0 {
+		rp.log.WriteString("\nreplay: the solvers produced no candidate input (exact model and small-scope search both failed)\n")
+	}
+}
+
+// candidate asks a solver for values of the extraction terms.
+func (rp *replayer) candidate(plan *xplan, bounded bool, block []string) ([]string, bool) {
+	fr, o := rp.f.fr, rp.f.o
+	var q strings.Builder
+	tr := func(s string) string { return s }
+	if bounded {
+		tr = func(s string) string {
+			var out []string
+			for _, x := range parseSx(s) {
+				if x.head() == "assert" && len(x.list) == 2 && strings.Contains(x.String(), "(at o i)") {
+					continue // the axiom of at(); at is replaced by + below
+				}
+				if x.head() == "declare-fun" && len(x.list) > 1 && x.list[1].atom == "at" {
+					continue
+				}
+				y := boundInst(x, 4, "true")
+				out = append(out, strings.ReplaceAll(y.String(), "(at ", "(+ "))
+			}
+			return strings.Join(out, "\n")
+		}
+	}
+	q.WriteString(tr(fr.Prelude) + "\n")
+	for _, c := range fr.Cmds[:o.Prefix] {
+		q.WriteString(tr(c) + "\n")
+	}
+	for _, f := range plan.facts {
+		q.WriteString("(assert " + tr(f) + ")\n")
+	}
+	for _, bl := range block {
+		q.WriteString("(assert " + tr(bl) + ")\n")
+	}
+	q.WriteString("(assert " + tr(o.Reach) + ")\n")
+	q.WriteString(tr("(assert (not "+o.Goal+"))") + "\n")
+	q.WriteString("(check-sat)\n")
+	var terms []string
+	for _, t := range plan.terms {
+		terms = append(terms, tr(t))
+	}
+	q.WriteString("(get-value (" + strings.Join(terms, "\n ") + "))\n")
+	file := rp.base + fmt.Sprintf(".cand%d.smt2", map[bool]int{false: 0, true: 1}[bounded])
+	os.MkdirAll(filepath.Dir(file), 0o755)
+	os.WriteFile(file, []byte(q.String()), 0o644)
+	defer os.Remove(file)
+	for _, s := range solvers[:2] {
+		st, out, _ := runSolver(context.Background(), s, file, 15)
+		if st != "sat" {
+			continue
+		}
+		i := strings.Index(out, "(")
+		if i < 0 {
+			continue
+		}
+		top := parseSx(out[i:])
+		if len(top) == 0 || top[0].list == nil {
+			continue
+		}
+		pairs := top[0].list
+		if len(pairs) != len(plan.terms) {
+			continue
+		}
+		vals := make([]string, len(pairs))
+		for k, p := range pairs {
+			if len(p.list) != 2 {
+				return nil, false
+			}
+			vals[k] = p.list[1].String()
+		}
+		mode := "exact query"
+		if bounded {
+			mode = "small-scope search (quantifiers instantiated over 0..3)"
+		}
+		rp.log.WriteString(fmt.Sprintf("\ncandidate input from %s via %s\n", s.name, mode))
+		return vals, true
+	}
+	return nil, false
+}
+
+func mentions(e CExpr, names map[string]bool) bool {
+	found := false
+	var walk func(e CExpr)
+	walk = func(e CExpr) {
+		switch x := e.(type) {
+		case *CIdent:
+			if names[x.Name] {
+				found = true
+			}
+		case *CUn:
+			walk(x.X)
+		case *CBin:
+			walk(x.X)
+			walk(x.Y)
+		case *CCond:
+			walk(x.C)
+			walk(x.A)
+			walk(x.B)
+		case *CIndex:
+			walk(x.X)
+			walk(x.I)
+		case *CSlice:
+			walk(x.X)
+			if x.Lo != nil {
+				walk(x.Lo)
+			}
+			if x.Hi != nil {
+				walk(x.Hi)
+			}
+		case *CSel:
+			walk(x.X)
+		case *CCall:
+			for _, a := range x.Args {
+				walk(a)
+			}
+		case *CQuant:
+			walk(x.Body)
+		}
+	}
+	walk(e)
+	return found
+}
+
+func (rp *replayer) tryCandidate(roots []*xnode, wnames []string, n int) {
+	fr := rp.f.fr
+	fn, c := fr.Fn, fr.Contract
+	eng := rp.rep.eng
+	pkg := fn.Pkg.Pkg
+	rend := &goRender{pkg: pkg, imports: map[string]string{}, ptrVars: map[string]string{}}
+	rend.rankAbs(roots)
+	gg := &goGen{eng: eng, pkg: pkg, mode: fr.Mode, absStr: eng.cs.pragma(c.PkgPath, "strings") == "ordered",
+		vars: map[string]goVal{}, oldVars: map[string]goVal{}, rend: rend}
+	var body strings.Builder
+	// parameter names as used by the contract
+	sig := fn.Signature
+	var pnames []string
+	k := 0
+	if sig.Recv() != nil {
+		name := c.RecvName
+		if name == "" {
+			name = "recv"
+		}
+		pnames = append(pnames, name)
+		k = 1
+	}
+	for i := 0; i+k < len(fn.Params); i++ {
+		name := fmt.Sprintf("arg%d", i)
+		if i < len(c.Params) {
+			name = c.Params[i]
+		}
+		pnames = append(pnames, name)
+	}
+	var decl strings.Builder
+	for i, p := range fn.Params {
+		e := rend.expr(roots[i])
+		decl.WriteString(fmt.Sprintf("\tvar %s %s = %s\n\t_ = %s\n", pnames[i], rend.typeStr(p.Type()), e, pnames[i]))
+		gg.vars[pnames[i]] = goVal{code: pnames[i], t: p.Type()}
+		// snapshot for old()
+		on := "old_" + pnames[i]
+		switch u := types.Unalias(p.Type()).Underlying().(type) {
+		case *types.Pointer:
+			el := rend.typeStr(u.Elem())
+			decl.WriteString(fmt.Sprintf("\tvar %s %s\n\tif %s != nil {\n\t\t%s = new(%s)\n\t\t*%s = *%s\n", on, rend.typeStr(p.Type()), pnames[i], on, el, on, pnames[i]))
+			if s, ok := structOf(u.Elem()); ok && !rend.foreignOpaque(u.Elem()) {
+				for fi := 0; fi < s.NumFields(); fi++ {
+					if _, isSl := s.Field(fi).Type().Underlying().(*types.Slice); isSl && s.Field(fi).Name() != "_" {
+						fnm := s.Field(fi).Name()
+						decl.WriteString(fmt.Sprintf("\t\t%s.%s = append(%s.%s[:0:0], %s.%s...)\n", on, fnm, pnames[i], fnm, pnames[i], fnm))
+					}
+				}
+			}
+			decl.WriteString("\t}\n\t_ = " + on + "\n")
+		case *types.Slice:
+			decl.WriteString(fmt.Sprintf("\t%s := append(%s[:0:0], %s...)\n\t_ = %s\n", on, pnames[i], pnames[i], on))
+		default:
+			decl.WriteString(fmt.Sprintf("\t%s := %s\n\t_ = %s\n", on, pnames[i], on))
+		}
+		gg.oldVars[pnames[i]] = goVal{code: on, t: p.Type()}
+	}
+	for i, wn := range wnames {
+		node := roots[len(fn.Params)+i]
+		decl.WriteString(fmt.Sprintf("\tvar %s %s = %s\n\t_ = %s\n", wn, rend.typeStr(node.t), rend.expr(node), wn))
+		gg.vars[wn] = goVal{code: wn, t: node.t}
+	}
+	if len(rend.problems) > 0 {
+		rp.log.WriteString("candidate not renderable: " + strings.Join(rend.problems, "; ") + "\n")
+		return
+	}
+	body.WriteString(strings.Join(prefixLines(rend.stmts, "\t"), "\n") + "\n")
+	body.WriteString(decl.String())
+	// preconditions
+	body.WriteString("\tchk := func(name string, f func() bool) (ok bool) {\n\t\tdefer func() {\n\t\t\tif r := recover(); r != nil {\n\t\t\t\tt.Logf(\"REPLAY-NOTE: oracle %s not evaluable: %v\", name, r)\n\t\t\t\tok = true\n\t\t\t}\n\t\t}()\n\t\treturn f()\n\t}\n")
+	for i, rq := range c.Requires {
+		code, _ := gg.clause(rq.Expr)
+		body.WriteString(fmt.Sprintf("\tif !chk(\"requires %d\", func() bool { return %s }) {\n\t\tt.Log(\"REPLAY-SKIP: candidate input does not satisfy the precondition: %s\")\n\t\treturn\n\t}\n", i, code, escq(rq.Src)))
+	}
+	// type invariants of parameters
+	for i, p := range fn.Params {
+		if nt, ok := types.Unalias(p.Type()).(*types.Named); ok && nt.Obj().Pkg() != nil {
+			if ti := eng.cs.TypeInvs[nt.Obj().Pkg().Path()+"#"+nt.Obj().Name()]; ti != nil {
+				saved := gg.vars[ti.Self]
+				gg.vars[ti.Self] = goVal{code: pnames[i], t: p.Type()}
+				code, _ := gg.clause(ti.Clause.Expr)
+				gg.vars[ti.Self] = saved
+				body.WriteString(fmt.Sprintf("\tif !chk(\"type invariant\", func() bool { return %s }) {\n\t\tt.Log(\"REPLAY-SKIP: candidate input violates the type invariant of %s\")\n\t\treturn\n\t}\n", code, nt.Obj().Name()))
+			}
+		}
+	}
+	// results
+	var rnames []string
+	for i := 0; i < sig.Results().Len(); i++ {
+		name := fmt.Sprintf("res%d", i)
+		if i < len(c.Results) {
+			name = c.Results[i]
+		}
+		rnames = append(rnames, name)
+		body.WriteString(fmt.Sprintf("\tvar %s %s\n\t_ = %s\n", name, rend.typeStr(sig.Results().At(i).Type()), name))
+		gg.vars[name] = goVal{code: name, t: sig.Results().At(i).Type()}
+	}
+	// the call
+	var args []string
+	for i := k; i < len(pnames); i++ {
+		a := pnames[i]
+		if sig.Variadic() && i == len(pnames)-1 {
+			a += "..."
+		}
+		args = append(args, a)
+	}
+	call := fn.Name() + "(" + strings.Join(args, ", ") + ")"
+	if k == 1 {
+		call = pnames[0] + "." + call
+	}
+	if len(rnames) > 0 {
+		call = strings.Join(rnames, ", ") + " = " + call
+	}
+	body.WriteString("\tvar panicked any\n\tfunc() {\n\t\tdefer func() { panicked = recover() }()\n\t\t" + call + "\n\t}()\n")
+	expect := "false"
+	if c.PanicsIf != nil {
+		gg.inOld = true
+		code, ok := gg.clause(c.PanicsIf.Expr)
+		gg.inOld = false
+		if ok {
+			expect = code
+		} else {
+			expect = "panicked != nil"
+		}
+	}
+	if c.EnsuresPanic {
+		expect = "true"
+	}
+	body.WriteString("\texpectPanic := " + expect + "\n")
+	body.WriteString("\tif panicked != nil && !expectPanic {\n\t\tt.Fatalf(\"REPLAY-FAIL: the real code panics on this input: %v\", panicked)\n\t}\n")
+	body.WriteString("\tif panicked == nil && expectPanic {\n\t\tt.Fatalf(\"REPLAY-FAIL: the real code returns normally where the contract requires a panic\")\n\t}\n")
+	body.WriteString("\tif panicked != nil {\n\t\tt.Log(\"REPLAY-PASS: panicked as the contract allows\")\n\t\treturn\n\t}\n")
+	// postconditions
+	gnames := map[string]bool{}
+	for _, g := range c.GhostRes {
+		gnames[g.Name] = true
+	}
+	var ghostClauses []string
+	var ghostNames []string
+	for _, en := range c.Ensures {
+		if len(gnames) > 0 && mentions(en.Expr, gnames) {
+			for _, g := range c.GhostRes {
+				gg.vars[g.Name] = goVal{code: "gh_" + g.Name, t: intT}
+			}
+			code, ok := gg.clause(en.Expr)
+			if ok {
+				ghostClauses = append(ghostClauses, code)
+				ghostNames = append(ghostNames, en.Name)
+			}
+			continue
+		}
+		code, ok := gg.clause(en.Expr)
+		if !ok {
+			body.WriteString("\t// postcondition " + en.Name + " is not executable\n")
+			continue
+		}
+		body.WriteString(fmt.Sprintf("\tif !chk(\"ensures %s\", func() bool { return %s }) {\n\t\tt.Fatalf(\"REPLAY-FAIL: postcondition %s violated on the real code: %s\")\n\t}\n", en.Name, code, en.Name, escq(en.Src)))
+	}
+	if len(ghostClauses) > 0 {
+		body.WriteString("\tghostOK := false\n")
+		closeB := ""
+		for _, g := range c.GhostRes {
+			body.WriteString(fmt.Sprintf("\tfor gh_%s := -2; gh_%s <= 300 && !ghostOK; gh_%s++ {\n", g.Name, g.Name, g.Name))
+			closeB += "\t}\n"
+		}
+		body.WriteString("\t\tif chk(\"ensures with ghost results\", func() bool { return " + strings.Join(ghostClauses, " && ") + " }) {\n\t\t\tghostOK = true\n\t\t}\n")
+		body.WriteString(closeB)
+		body.WriteString(fmt.Sprintf("\tif !ghostOK {\n\t\tt.Fatalf(\"REPLAY-FAIL: postconditions %s violated on the real code for every value of the ghost result\")\n\t}\n", strings.Join(ghostNames, ",")))
+	}
+	body.WriteString("\tt.Log(\"REPLAY-PASS: the real code satisfies the contract on this input\")\n")
+
+	var src strings.Builder
+	src.WriteString("package " + pkg.Name() + "\n\n// generated by govc: replay of obligation " + rp.f.o.Name + "\n\nimport (\n\t\"testing\"\n")
+	var imps []string
+	for p, nm := range rend.imports {
+		imps = append(imps, fmt.Sprintf("\t%s %q\n", nm, p))
+	}
+	sort.Strings(imps)
+	src.WriteString(strings.Join(imps, "") + ")\n\n")
+	src.WriteString("func govcEDiv(a, b int) int { q := a / b; if a%b < 0 { if b > 0 { q-- } else { q++ } }; return q }\nfunc govcEMod(a, b int) int { return a - b*govcEDiv(a, b) }\nvar _, _ = govcEDiv, govcEMod\n\n")
+	src.WriteString("func TestGovcReplay(t *testing.T) {\n" + body.String() + "}\n")
+	testFile := fmt.Sprintf("%s.replay%d_test.go.txt", rp.base, n)
+	os.WriteFile(testFile, []byte(src.String()), 0o644)
+	out, failed := runReplayTest(rp.rep.eng.repo, pkg.Path(), testFile)
+	rp.log.WriteString(fmt.Sprintf("replay test %s:\n%s\n", testFile, indent(trunc(out, 3000))))
+	if failed {
+		rp.f.input = true
+		rp.f.testFile = testFile
+	}
+}
+
+func prefixLines(ls []string, p string) []string {
+	var out []string
+	for _, l := range ls {
+		out = append(out, p+l)
+	}
+	return out
+}
+
+func escq(s string) string {
+	s = strings.ReplaceAll(s, "\\", "\\\\")
+	s = strings.ReplaceAll(s, "\"", "\\\"")
+	return strings.ReplaceAll(s, "%", "%%")
+}
+
+func indent(s string) string { return "    " + strings.ReplaceAll(strings.TrimSpace(s), "\n", "\n    ") }
+
+// overlay extras for packages that do not build their tests in the baseline
+func overlayExtras(repo, pkgPath string, dir string) map[string]string {
+	m := map[string]string{}
+	rel := strings.TrimPrefix(pkgPath, modPath+"/")
+	switch rel {
+	case "core":
+		for _, f := range []string{"closure_test.go", "execute_test.go", "suclasschain_test.go", "timestamp_test.go"} {
+			m[filepath.Join(repo, "core", f)] = ""
+		}
+	}
+	// dbms embeds server.crt/server.key which are not in the repository
+	needCert := rel == "dbms" || rel == "core" || rel == "builtin" || rel == "dbms/mux" || strings.HasPrefix(rel, "dbms")
+	if needCert {
+		for _, f := range []string{"server.crt", "server.key"} {
+			if _, err := os.Stat(filepath.Join(repo, "dbms", f)); err != nil {
+				p := filepath.Join(dir, "dummy_"+f)
+				os.WriteFile(p, []byte("dummy\n"), 0o644)
+				m[filepath.Join(repo, "dbms", f)] = p
 			}
 		}
 	}
 	return m
 }
 
-func (r *Report) runTemplate(f *failure, model map[string]string, base string) (bool, string, string) {
-	return false, "templates not implemented yet", ""
+// runReplayTest runs one generated test in its package through an overlay.
+func runReplayTest(repo, pkgPath, testFile string) (string, bool) {
+	rel := strings.TrimPrefix(pkgPath, modPath)
+	rel = strings.TrimPrefix(rel, "/")
+	dir := filepath.Join(repo, rel)
+	ov := map[string]map[string]string{"Replace": overlayExtras(repo, pkgPath, filepath.Dir(testFile))}
+	ov["Replace"][filepath.Join(dir, "zz_govc_replay_test.go")] = testFile
+	data, _ := json.Marshal(ov)
+	ovFile := testFile + ".overlay.json"
+	os.WriteFile(ovFile, data, 0o644)
+	defer os.Remove(ovFile)
+	ctx, cancel := context.WithTimeout(context.Background(), 180*time.Second)
+	defer cancel()
+	cmd := exec.CommandContext(ctx, "go", "test", "-overlay", ovFile, "-vet=off", "-count=1", "-timeout", "60s", "-run", "^TestGovcReplay$", "-v", "./"+rel)
+	cmd.Dir = repo
+	cmd.Env = append(os.Environ(), "GOFLAGS=-mod=mod", "GOPROXY=off")
+	out, _ := cmd.CombinedOutput()
+	s := string(out)
+	return s, strings.Contains(s, "REPLAY-FAIL")
+}
+
+func cmdReplay(args []string) int {
+	var prop, file string
+	for i := 0; i+1 < len(args); i += 2 {
+		switch args[i] {
+		case "-prop":
+			prop = args[i+1]
+		case "-file":
+			file = args[i+1]
+		}
+	}
+	data, err := os.ReadFile(file)
+	if err != nil {
+		fmt.Println("HARNESS-ERROR cannot read", file)
+		return 2
+	}
+	// find the generated test recorded in the replay file
+	var testFile, pkgPath string
+	for _, ln := range strings.Split(string(data), "\n") {
+		if strings.HasPrefix(ln, "replay test ") {
+			testFile = strings.TrimSuffix(strings.TrimPrefix(ln, "replay test "), ":")
+		}
+		if strings.HasPrefix(ln, "package: ") {
+			pkgPath = strings.TrimPrefix(ln, "package: ")
+		}
+	}
+	if testFile == "" || pkgPath == "" {
+		fmt.Printf("no runnable test recorded in %s (no-failing-input-found)\n%s\n", file, string(data))
+		return 0
+	}
+	out, failed := runReplayTest("/repo", pkgPath, testFile)
+	fmt.Println(out)
+	if failed {
+		fmt.Printf("VIOLATION property=%s replay=%s\n", prop, file)
+		return 1
+	}
+	return 0
 }
